@@ -42,6 +42,8 @@ pub mod wm;
 pub mod split;
 pub mod rank;
 pub mod reg;
+pub mod tmo;
+
 
 pub fn registry() -> Vec<(&'static str, fn())> {
     let mut v = Vec::new();
@@ -58,5 +60,6 @@ pub fn registry() -> Vec<(&'static str, fn())> {
     v.extend_from_slice(split::ALL);
     v.extend_from_slice(rank::ALL);
     v.extend_from_slice(reg::ALL);
+    v.extend_from_slice(tmo::ALL);
     v
 }
